@@ -143,7 +143,9 @@ def unit_pairs(a):
 def check_nearmiss(case, stats):
     d, cat, kw, variant = case["dialect"], case["cat"], case["kw"], case["variant"]
     D = DIALECTS[d]
-    line = {"bare": kw, "plus-char": kw + "x", "blank-colon": kw + " :", "cut": kw[:-1] + ":", "bare-nl-less": kw, "lower": kw.lower() + ":", "colon-first": ":" + kw}[variant]
+    line = {"bare": kw, "plus-char": kw + "x", "blank-colon": kw + " :", "cut": kw[:-1] + ":", "bare-nl-less": kw, "lower": kw.lower() + ":", "colon-first": ":" + kw,
+            "fullwidth-colon": kw + "\uff1a x", "small-colon": kw + "\ufe55 x", "ratio": kw + "\u2236 x", "modifier-colon": kw + "\ua789x", "semicolon": kw + "; x",
+            "zero-width-before-colon": kw + "\u200b: x", "nbsp-before-colon": kw + "\xa0: x"}[variant]
     # context: under a scenario header of the same dialect, at the end of the document (bare-nl-less: no final line break)
     text = "# language: %s\n%s: f\n  %s: s\n    %s%s" % (d, D["feature"][0], D["scenario"][0], line, "" if variant == "bare-nl-less" else "\n")
     kinds = cf_kinds(d, line + "\n")
@@ -170,7 +172,8 @@ def unit_nearmiss(a):
                 continue
             for cat in TITLE_CATS:
                 for kw in DIALECTS[d][cat]:
-                    for v in ("bare", "plus-char", "blank-colon", "cut", "bare-nl-less", "lower", "colon-first"):
+                    for v in ("bare", "plus-char", "blank-colon", "cut", "bare-nl-less", "lower", "colon-first", "fullwidth-colon", "small-colon", "ratio", "modifier-colon",
+                              "semicolon", "zero-width-before-colon", "nbsp-before-colon"):
                         yield {"sub": "nearmiss", "dialect": d, "cat": cat, "kw": kw, "variant": v}
     sweep(stats, gen(), check_nearmiss)
     return stats
